@@ -20,12 +20,14 @@ from harness.common import extract
 from harness.common.extract import NotRecognised
 from harness.common.fakeproc import FakeProc, reset_psutil_state
 from harness.common.shrink import ddmin
+from harness.props import c01_stat
 
 PROP = "C01"
-DRIVER_MODULES = ["PsutilModel.Model.C01Gen", "PsutilModel.Spec.C01", "PsutilModel.Model.C01Driver"]
+DRIVER_MODULES = ["PsutilModel.Model.C01Gen", "PsutilModel.Spec.C01", "PsutilModel.Model.C01Driver",
+                  "PsutilModel.Model.C01Stat", "PsutilModel.Model.C01StatDriver"]
 NEEDS_EXT = True
 TRUSTED = [
-    "C01/C02 world model: the simulated kernel (process table of incarnations, a tick clock that stamps every spawn with a strictly larger `start`, a published btime) and the fake procfs renderer of harness/props/c01.py (/proc/<pid>/stat field 22 + state letter, /proc/stat btime line)",
+    "C01/C02 world model: the simulated kernel (process table of incarnations, a tick clock that stamps every spawn with a strictly larger `start`, a published btime) and the fake procfs renderer of harness/props/c01.py (/proc/<pid>/stat: `pid (comm) state ppid … starttime …` per proc(5) with comm and every other field an input of the histories — harness/props/c01_stat.py render_line = Model/C01Stat.lean statLine —, /proc/stat btime line)",
     "C01/C02 atomicity: kernel events happen between psutil calls, never inside one (the check-then-kill window of os.kill without pidfd is inherent and outside the model)",
     "C01/C02 arithmetic: create time is modelled exactly as start + CLOCK_TICKS*boot (scaled by CLOCK_TICKS); the implementation computes start/CLOCK_TICKS + boot in doubles — injective in `start` for start < 2^53 and boot < 2^32",
     "C01/C02 permission and readability inputs: which PIDs the kernel refuses (EPERM / EACCES from kill, setpriority, ioprio_set, sched_setaffinity, prlimit) and whose /proc/<pid>/stat cannot be opened are inputs of the simulated kernel, attached to the PID (they persist across a recycling until changed), answered by the recorders / by an `open` shadowing the builtin inside psutil._common; ESRCH is decided by the process table alone (a listed process never answers ESRCH)",
@@ -37,7 +39,7 @@ ASSUMPTIONS = [
     "a PID is not recycled within one clock tick (psutil's documented assumption): every spawn advances the model clock",
 ]
 MANIFEST = {
-    "level_text": "Machine-checked Lean 4 proof over a model of psutil's process-identity machinery (Process._init/_get_ident/create_time/is_running/_raise_if_pid_reused/_send_signal/setters + _pslinux boot_time/BOOT_TIME) and a simulated kernel: by induction over ALL histories of spawn/exit/reap/PID-reuse/tick/clock-step events and interleaved psutil calls, every effect in the log was delivered to the incarnation the asking object was built for, under exactly the object's PID, signals never to PID<=0 (C01_no_wrong_owner, C01_never_group), a call adds at most one effect carrying exactly the requested signal/values (C01_exact_args, signalMap_correct), a call through an object whose incarnation lost its PID raises NoSuchProcess(pid) and leaves the log unchanged — the kernel is not even asked — (C01_recycled_raises_NSP), and a live incarnation is not refused (C01_live_signal_delivered). The kernel's permission outcome is an input of every effect (histories contain events that make the kernel refuse a PID with EPERM or EACCES and allow it again): a refused os.kill / setpriority / ioprio_set / sched_setaffinity / prlimit is logged as an attempt with its errno, so C01_no_wrong_owner and C01_exact_args also cover what psutil ASKED the kernel for; on a live incarnation exactly one attempt is made and the caller gets AccessDenied(pid) instead of a normal return (C01_live_signal_delivered / C01_live_setter_applied, parametrised by the kernel's answer); in any state a call returns normally iff one OS call was made and carried out, a refused one is AccessDenied(pid), nothing is retried (C01_outcome_truthful); a refusal sets no sticky flag (C02's theorems range over these histories). Outside the property's quantifier (characterisation, not findings): when /proc/pid/stat cannot be opened, Process._init keeps `_ident = (pid, None)` — modelled (mkObj, Kernel.hidden) and compared with the real code; for histories with such phases every logged OS call still carries the asking object's PID, never a PID <= 0, and reaches the right incarnation whenever the object's start time is known (C01_known_start_no_wrong_owner, all histories), while an object with unknown start passes the guard whenever the PID's current holder is unreadable too (C01_unknown_start_counterexample, witness replayed on the real code) — and ONLY then: over all histories with unreadable phases, for every object (start known or not) and whatever was called in between (create_time(), is_running(), process_iter() …), as soon as /proc/pid/stat of the PID opens at the moment of the call (PID free, or its new holder readable) a signal/setter through an object whose incarnation is gone raises NoSuchProcess(pid) and hands nothing to the OS, and every effect issued while the stat file opens reaches the object's own incarnation (C01_recycled_raises_NSP_readable, C01_effect_readable_right_owner); the model's premise that `_ident` is written at construction only is the translator obligation cfg_ident_writers, and the correspondence judges histories with unreadable phases by these clauses (not by the model alone). The object list of a history holds the objects built by Process(pid) and those built and yielded by process_iter() (cached handles of recycled PIDs included), with oneshot() entry/exit as explicit no-op calls. The proofs hold for the configuration extracted by the translator (cfg_good: guard before every effect, `_gone` test in _raise_if_pid_reused, BOOT_TIME written once; cfg_none_test: create_time() takes the cached BOOT_TIME whenever it `is not None` — /repo 29257b1, the repair of the former finding C02-boottime-zero), with NO hypothesis on the boot time: the initial published boot time is any number, 0 included, and clock steps go anywhere (histories from btime 0 are generated and judged by the specification like all others); for the defective configurations the counterexamples are proved (C01_gone_counterexample, C01_bootrewrite_counterexample, and — what-if, the truthiness test `BOOT_TIME or boot_time()` of the source before 29257b1 — C01_btime0_counterexample: from a published btime 0, after a clock step terminate() on the handle of a LIVE process raises NoSuchProcess). Tie: ast-extracted facts + differential run of real psutil.Process objects over a fake procfs with recording OS entry points.",
+    "level_text": "Machine-checked Lean 4 proof over a model of psutil's process-identity machinery (Process._init/_get_ident/create_time/is_running/_raise_if_pid_reused/_send_signal/setters + _pslinux boot_time/BOOT_TIME) and a simulated kernel: by induction over ALL histories of spawn/exit/reap/PID-reuse/tick/clock-step events and interleaved psutil calls, every effect in the log was delivered to the incarnation the asking object was built for, under exactly the object's PID, signals never to PID<=0 (C01_no_wrong_owner, C01_never_group), a call adds at most one effect carrying exactly the requested signal/values (C01_exact_args, signalMap_correct), a call through an object whose incarnation lost its PID raises NoSuchProcess(pid) and leaves the log unchanged — the kernel is not even asked — (C01_recycled_raises_NSP), and a live incarnation is not refused (C01_live_signal_delivered). The kernel's permission outcome is an input of every effect (histories contain events that make the kernel refuse a PID with EPERM or EACCES and allow it again): a refused os.kill / setpriority / ioprio_set / sched_setaffinity / prlimit is logged as an attempt with its errno, so C01_no_wrong_owner and C01_exact_args also cover what psutil ASKED the kernel for; on a live incarnation exactly one attempt is made and the caller gets AccessDenied(pid) instead of a normal return (C01_live_signal_delivered / C01_live_setter_applied, parametrised by the kernel's answer); in any state a call returns normally iff one OS call was made and carried out, a refused one is AccessDenied(pid), nothing is retried (C01_outcome_truthful); a refusal sets no sticky flag (C02's theorems range over these histories). Outside the property's quantifier (characterisation, not findings): when /proc/pid/stat cannot be opened, Process._init keeps `_ident = (pid, None)` — modelled (mkObj, Kernel.hidden) and compared with the real code; for histories with such phases every logged OS call still carries the asking object's PID, never a PID <= 0, and reaches the right incarnation whenever the object's start time is known (C01_known_start_no_wrong_owner, all histories), while an object with unknown start passes the guard whenever the PID's current holder is unreadable too (C01_unknown_start_counterexample, witness replayed on the real code) — and ONLY then: over all histories with unreadable phases, for every object (start known or not) and whatever was called in between (create_time(), is_running(), process_iter() …), as soon as /proc/pid/stat of the PID opens at the moment of the call (PID free, or its new holder readable) a signal/setter through an object whose incarnation is gone raises NoSuchProcess(pid) and hands nothing to the OS, and every effect issued while the stat file opens reaches the object's own incarnation (C01_recycled_raises_NSP_readable, C01_effect_readable_right_owner); the model's premise that `_ident` is written at construction only is the translator obligation cfg_ident_writers, and the correspondence judges histories with unreadable phases by these clauses (not by the model alone). The object list of a history holds the objects built by Process(pid) and those built and yielded by process_iter() (cached handles of recycled PIDs included), with oneshot() entry/exit as explicit no-op calls. The proofs hold for the configuration extracted by the translator (cfg_good: guard before every effect, `_gone` test in _raise_if_pid_reused, BOOT_TIME written once; cfg_none_test: create_time() takes the cached BOOT_TIME whenever it `is not None` — /repo 29257b1, the repair of the former finding C02-boottime-zero), with NO hypothesis on the boot time: the initial published boot time is any number, 0 included, and clock steps go anywhere (histories from btime 0 are generated and judged by the specification like all others); for the defective configurations the counterexamples are proved (C01_gone_counterexample, C01_bootrewrite_counterexample, and — what-if, the truthiness test `BOOT_TIME or boot_time()` of the source before 29257b1 — C01_btime0_counterexample: from a published btime 0, after a clock step terminate() on the handle of a LIVE process raises NoSuchProcess). Tie: ast-extracted facts + differential run of real psutil.Process objects over a fake procfs with recording OS entry points. STAT BYTES (seeded round 5): the identity the guard compares is parsed from /proc/<pid>/stat, whose comm field is chosen by the process (any bytes: spaces, parentheses, `) `, newlines, a spelled-out fake stat tail). Model/C01Stat.lean keeps comm and all other fields per incarnation, renders the line (proc(5)), lets a history choose them at every spawn and rewrite them while the process lives, and runs the identity machine on the kernel as READ from those bytes by psutil's reader in the shape the translator extracted (facts statSearch/statNeedle/statSkip/statSplit/statCtimeIdx/statStatusIdx/createReads, obtained by following the data flow of _parse_stat_file with helper functions inlined; obligation scfg_good: last `)`, +2, whitespace split, field 19 = starttime, field 0 = state, float(...)/CLOCK_TICKS). Proved for EVERY comm (no hypothesis on it; hypothesis HistWF = the other fields are in the kernel's format): the reader recovers starttime and zombie state from the line (C01_stat_identity_any_comm), every byte-level history runs as its erasure (C01_stat_bytes_refine), hence the recycling clause, no-wrong-owner and live-delivery hold over the byte dimension (C01_recycled_raises_NSP_any_stat_bytes, C01_no_wrong_owner_any_stat_bytes, C01_live_signal_delivered_any_stat_bytes); what-if: a reader that ends the name at the first `) ` reads two different holders of a PID as the same (C01_first_rpar_space_counterexample). Correspondence: the fake procfs shows the chosen bytes (family stat_bytes, corpus stat-bytes / stat-spoofed-tail / stat-rename-live, sweep exhaustive_stat over all pairs of short names over {'(', ')', ' ', 'a'}); the specification never looks at the bytes.",
     "level_note": "Trusted: Lean kernel + {propext, Classical.choice, Quot.sound}; the translator; the correspondence harness; the simulated kernel/fake procfs; atomic calls (the inherent check-then-kill window is outside the model); exact arithmetic for create times; hypotheses: no PID recycled within one clock tick and (main theorems) /proc/pid/stat always readable — none on the boot time (any value, 0 included, any clock step); permission refusals attached to the PID, ESRCH decided by the process table alone.",
     "technique": "Lean 4 invariant proof by induction over event histories (ghost incarnation ids) + translator-fed proof obligation + differential correspondence on generated and exhaustively enumerated short histories",
     "design_ref": "DESIGN.md §5 C01",
@@ -520,6 +522,8 @@ def facts(snap, F):
     # C01-only obligation (`cfg_ident_writers`); C02 calls `all_facts` directly
     F.try_add("identWriters", "List String", lambda: extract.lean_list(_ident_writers(snap), extract.lean_str),
               "functions of the package that store to an attribute named `_ident` (file:Class.function)")
+    # C01-only: the reader of /proc/<pid>/stat (obligation `scfg_good`; Model/C01Stat.lean runs on it)
+    c01_stat.stat_facts(snap, F)
 
 
 # ------------------------------------------------------------------------------ simulated kernel
@@ -529,6 +533,7 @@ class SimKernel:
 
     def __init__(self, btime):
         self.procs = {}      # pid -> [start, zombie]
+        self.lines = {}      # pid -> what /proc/<pid>/stat shows besides pid, state, starttime (c01_stat.line_of)
         self.clock = 0
         self.btime = btime
         self.denied = {}     # pid -> "EPERM" | "EACCES": what the kernel answers to kill/setpriority/… on that PID
@@ -539,12 +544,18 @@ class SimKernel:
         if k == "spawn":
             if op["pid"] not in self.procs:
                 self.procs[op["pid"]] = [self.clock, False]
+                self.lines[op["pid"]] = c01_stat.line_of(op)
                 self.clock += 1
+        elif k == "stat":
+            # the line of a listed process changes (prctl(PR_SET_NAME), counters, …): pid, state, starttime stay
+            if op["pid"] in self.procs:
+                self.lines[op["pid"]] = c01_stat.line_of(op)
         elif k == "exit":
             if op["pid"] in self.procs:
                 self.procs[op["pid"]][1] = True
         elif k == "reap":
             self.procs.pop(op["pid"], None)
+            self.lines.pop(op["pid"], None)
         elif k == "tick":
             self.clock += op["n"]
         elif k == "setbtime":
@@ -563,13 +574,15 @@ class SimKernel:
         return self.procs[pid][0] if pid in self.procs else None
 
 
-KERNEL_OPS = ("spawn", "exit", "reap", "tick", "setbtime", "perm", "hide")
+KERNEL_OPS = ("spawn", "exit", "reap", "tick", "setbtime", "perm", "hide", "stat")
 
 
 def hyp_of(hist):
     """do the theorems' hypotheses hold for this history?  (`HistOK true`: /proc/<pid>/stat always readable — no `hide on`
     event, flag cleared by the generators of such families; permission changes, clock steps and a published boot time of
     0 are inside the hypotheses)"""
+    if not all(c01_stat.line_wf(c01_stat.line_of(o)) for o in hist["ops"] if o["op"] in ("spawn", "stat")):
+        return False     # a stat line that is not in the kernel's format (HistWF, Proofs/C01Stat.lean): never generated
     return bool(hist.get("hyp", True)) and not any(o["op"] == "hide" and o["on"] for o in hist["ops"])
 
 
@@ -643,12 +656,11 @@ class SimPs:
                     self._is_running(k, i)       # the other three run it through _raise_if_pid_reused()
 
 
-def stat_line(pid, start, zombie):
+def stat_line(pid, start, zombie, line=None):
     # pid (comm) state ppid pgrp session tty_nr tpgid flags minflt cminflt majflt cmajflt utime stime
-    # cutime cstime priority nice num_threads itrealvalue starttime vsize rss … (52 fields)
-    tail = ["Z" if zombie else "S", "1", str(pid), str(pid), "0", "-1", "4194304"] + ["0"] * 8 + \
-           ["20", "0", "1", "0", str(start), "1000", "10"] + ["0"] * 28
-    return ("%d (proc %d) " % (pid, pid) + " ".join(tail) + "\n").encode()
+    # cutime cstime priority nice num_threads itrealvalue starttime vsize rss … (52 fields); comm and the other
+    # fields are an input of the histories (c01_stat: `spawn` / `stat` ops; default = the line written here since round 1)
+    return c01_stat.render_line(pid, start, zombie, line or c01_stat.default_line(pid))
 
 
 class Impl:
@@ -748,7 +760,7 @@ class Impl:
     def render_pid(self, pid):
         if pid in self.kern.procs:
             st, z = self.kern.procs[pid]
-            self.fp.write("%d/stat" % pid, stat_line(pid, st, z))
+            self.fp.write("%d/stat" % pid, stat_line(pid, st, z, self.kern.lines.get(pid)))
         else:
             self.fp.remove(str(pid))
 
@@ -770,7 +782,7 @@ class Impl:
         k = op["op"]
         if k in KERNEL_OPS:
             self.kern.apply(op)
-            if k in ("spawn", "exit", "reap"):
+            if k in ("spawn", "exit", "reap", "stat"):
                 self.render_pid(op["pid"])
             elif k == "setbtime":
                 self.render_stat()
@@ -1305,6 +1317,8 @@ def step_btime(rng, b):
 
 
 def gen_history(rng, family, clk):
+    if family == "stat_bytes":
+        return c01_stat.gen_stat_history(rng, Plan, rand_btime, PIDS, clk)
     P = Plan(rng, rand_btime(rng), clk)
     p = rng.choice(PIDS)
     if family == "gone_path":
@@ -1803,6 +1817,7 @@ def sprinkle_oneshot(rng, h):
     return h
 
 
+STAT_FAMILIES = ["stat_bytes", "stat_bytes", "stat_bytes"]      # C01 only (correspond_for)
 FAMILIES = ["gone_path", "reuse_noquery", "reuse_zombie", "multi_recycle", "pid0", "clock_step", "coincidence",
             "live", "mixed", "oneshot_reuse", "iter_handles", "iter_mixed", "mixed", "iter_handles", "btime0",
             "perm_paths", "perm_mixed", "unknown_start", "perm_paths", "wait_then_reuse", "wait_then_reuse",
@@ -2081,6 +2096,12 @@ def features(h, result):
     ip = result["pairs"][0]
     if len(ip["hash"]) >= 2:
         f.add("pairs")
+    sf = c01_stat.stat_features(h)
+    if sf:
+        f |= sf
+        for (o, im, ie, mo, me, sp, _aux) in result["rows"]:
+            if o["op"] in ("signal", "setter") and "listed" in sp:
+                f.add("stat:call_live" if sp["listed"] else "stat:call_recycled_or_gone")
     return f
 
 
@@ -2197,9 +2218,15 @@ def correspond_for(ctx, res, prop, driver_file, n_quick, n_thorough):
                     "moment of the call); "
                     "distinct = distinct op sequences")
         hists = witness_corpus(impl.clk)
+        fams = list(FAMILIES)
+        if prop == "C01":
+            # the bytes of /proc/<pid>/stat (comm, other fields) as an input: C01's driver runs the identity machine on the
+            # kernel as READ from those bytes (Model/C01Stat.lean); C02's driver has no such ops
+            hists.extend(c01_stat.corpus())
+            fams += STAT_FAMILIES
         n = ctx.n(n_quick, n_thorough)
         for i in range(n):
-            hists.append(gen_history(ctx.rng, FAMILIES[i % len(FAMILIES)], impl.clk))
+            hists.append(gen_history(ctx.rng, fams[i % len(fams)], impl.clk))
         n_rand = len(hists)
         maxlen = 5 if ctx.tier == "quick" else 6
         hists.extend(exhaustive_histories(maxlen))
@@ -2210,6 +2237,8 @@ def correspond_for(ctx, res, prop, driver_file, n_quick, n_thorough):
         hists.extend(exhaustive_wait(4 if ctx.tier == "quick" else 5))
         hists.extend(exhaustive_hidden(4 if ctx.tier == "quick" else 5))
         hists.extend(exhaustive_unknown_recycled(4 if ctx.tier == "quick" else 5))
+        if prop == "C01":
+            hists.extend(c01_stat.exhaustive_stat(2 if ctx.tier == "quick" else 3))
         if ctx.tier != "quick":
             hists.extend(h for h in exhaustive_unknown_recycled(4, thorough=True)
                          if any(o.get("what") == "as_dict_ct" or o["op"] == "new" or o.get("i") == 1 for o in h["ops"][3:]))
@@ -2260,7 +2289,9 @@ def correspond_for(ctx, res, prop, driver_file, n_quick, n_thorough):
                           "containing an unreadable phase; (judged by C01_recycled_raises_NSP_readable) all histories head·w, 2 <= |w| <= the "
                           "same bound, head = spawn·unreadable·Process(5) or spawn·unreadable·Process(5)·reap·spawn (object 0 has no start "
                           "time), over {stat readable, unreadable, create_time(0), is_running(0), kill(0), nice(0), reap, spawn} with a "
-                          "readable phase and a signal/setter%s; the random families are samples"
+                          "readable phase and a signal/setter; (C01) all pairs (c1, c2) of command names of length <= 2 (thorough: 3) over "
+                          "{'(', ')', ' ', 'a'}: spawn(c1)·Process·reap·spawn(c2)·kill(0)·nice(0) with equal other stat fields, and "
+                          "spawn(c1)·Process·rename to c2·terminate(0)%s; the random families are samples"
                           % (len(hists) - n_rand, maxlen, maxlen, 4 if ctx.tier == "quick" else 5, 4 if ctx.tier == "quick" else 5,
                              4 if ctx.tier == "quick" else 5, 4 if ctx.tier == "quick" else 5,
                              "" if ctx.tier == "quick" else "; all well-indexed histories of length 3..6 over {spawn 5, spawn 7, reap 5, "
